@@ -2624,6 +2624,15 @@ class Deb822FileElement(Deb822Element):
         self._token_and_elements = token_and_elements
         self._init_parent_of_parts()
 
+    def __deepcopy__(self, memo):
+        # type: (Dict[int, Any]) -> Deb822FileElement
+        # Copied attribute by attribute, the parts of the copy would keep the
+        # (weak) link to the file of their originals: the copy's paragraphs
+        # would claim to stand in the original.
+        new = self.__class__(copy.deepcopy(self._token_and_elements, memo))
+        memo[id(self)] = new
+        return new
+
     @classmethod
     def new_empty_file(cls):
         # type: () -> Deb822FileElement
@@ -2786,15 +2795,14 @@ class Deb822FileElement(Deb822Element):
     def _check_paragraph_is_free(self, paragraph):
         # type: (Deb822ParagraphElement) -> None
         """A paragraph can be placed in one file only, and there only once"""
-        parent = paragraph.parent_element
-        if parent is None:
-            return
         # The link alone does not tell: a copy made with copy.deepcopy() still
-        # names the file of its original.  What counts is where it stands.
+        # names the file of its original (or nothing, once that file is gone).
+        # What counts is where it stands.
         if any(part is paragraph for part in self.iter_parts()):
             raise ValueError("Paragraph is already a part of this file")
-        if parent is not self and any(part is paragraph
-                                      for part in parent.iter_parts()):
+        parent = paragraph.parent_element
+        if parent is not None and parent is not self \
+                and any(part is paragraph for part in parent.iter_parts()):
             raise ValueError("Paragraph is already part of another Deb822File")
 
     def _set_parent(self, t):
